@@ -425,6 +425,92 @@ def shard_fields(seed):
     return acc
 
 
+def shard_field_history(seed, rounds):
+    """one long-lived register object per class: named-field reads, named-field writes, whole-register writes (`.value = w`, what MCR handlers and
+    exception entry do) and slice writes (`reg[msb:lsb] = v`) interleaved at random; after every operation every named field must read the bits of the
+    register's current value and the value must be what the model says. A field view that is cached and invalidated on only some of the write routes
+    shows here, not on a freshly constructed register"""
+    import importlib
+    acc = Acc()
+    rng = random.Random(seed)
+    target.load_config()
+    for (modname, clsname, ctor), flds in sorted(FIELDS.items()):
+        mod = importlib.import_module('armulator.armv6.all_registers.' + modname)
+        cls = getattr(mod, clsname)
+        flds = [(fn, bp) for fn, bp in flds]
+        if not flds:
+            continue
+
+        def want(fieldbits, val):
+            g = 0
+            for m, l in fieldbits:
+                g = (g << (m - l + 1)) | ((val >> l) & (2 ** (m - l + 1) - 1))
+            return g
+
+        def read(reg, fname):
+            return int(getattr(reg, fname[0])(fname[2]) if isinstance(fname, tuple) else getattr(reg, fname))
+        for _round in range(rounds):
+            reg = cls(*ctor)
+            model = reg.value
+            log = []
+            for step in range(24):
+                op = rng.randrange(5)
+                if op == 0:
+                    model = rng.choice((0, 0xFFFFFFFF, rng.getrandbits(32), model ^ (1 << rng.randrange(32))))
+                    reg.value = model
+                    log.append(['value=', model])
+                elif op == 1:
+                    fname, bp = flds[rng.randrange(len(flds))]
+                    width = sum(m - l + 1 for m, l in bp)
+                    v = rng.getrandbits(width)
+                    try:
+                        if isinstance(fname, tuple):
+                            getattr(reg, fname[1])(fname[2], v)
+                        else:
+                            setattr(reg, fname, v)
+                    except Exception as e:      # noqa: BLE001
+                        acc.violation('C17:field-history:%s:exception' % clsname, {'kind': 'field-history', 'cls': clsname, 'log': log + [['set', str(fname), v]]}, repr(e))
+                        break
+                    rem = width
+                    for m, l in bp:
+                        w_ = m - l + 1
+                        rem -= w_
+                        model = (model & ~((2 ** w_ - 1) << l)) | (((v >> rem) & (2 ** w_ - 1)) << l)
+                    log.append(['set', str(fname), v])
+                elif op == 2:
+                    hi = rng.randrange(32)
+                    lo_ = rng.randrange(hi + 1)
+                    v = rng.getrandbits(hi - lo_ + 1)
+                    try:
+                        reg[hi:lo_] = v
+                    except Exception:           # noqa: BLE001 - a register class without slice writes
+                        continue
+                    model = (model & ~((2 ** (hi - lo_ + 1) - 1) << lo_)) | (v << lo_)
+                    log.append(['slice', hi, lo_, v])
+                else:
+                    log.append(['read'])
+                # after every operation: the whole value and (a sample of) the field views
+                acc.case(len(log) >= 3, ('fh', clsname, seed, _round, step), cls='field-history')
+                bad = None
+                if reg.value != model:
+                    bad = ('value', model, reg.value)
+                else:
+                    for fname, bp in (flds if len(flds) <= 6 else rng.sample(flds, 6)):
+                        try:
+                            g = read(reg, fname)
+                        except Exception as e:  # noqa: BLE001
+                            bad = (str(fname), 'exception', repr(e))
+                            break
+                        if g != want(bp, model):
+                            bad = (str(fname), want(bp, model), g)
+                            break
+                if bad:
+                    acc.violation('C17:field-history:%s.%s' % (clsname, bad[0]), {'kind': 'field-history', 'cls': clsname, 'modname': modname, 'ctor': list(ctor), 'log': log},
+                                  {'field': bad[0], 'expected': bad[1], 'observed': bad[2], 'register_value': model})
+                    break
+    return acc
+
+
 def run(ctx):
     ctx.rule = ('Every armulator bit primitive is called on every argument tuple at widths 1..N (N=7 quick, 9 thorough; shift '
                 'amounts 0..2N+1), all 2^12x2 modified-immediate inputs, all (type,imm5); 16/32/64-bit corner+random operands with '
@@ -438,6 +524,7 @@ def run(ctx):
     tasks += [(shard_imm, (p,)) for p in ('arm', 'thumb', 'misc')]
     tasks += [(shard_wide, (ctx.shard_seed(i), ctx.n(6000, 60000))) for i in range(12)]
     tasks += [(shard_fields, (ctx.shard_seed(100),))]
+    tasks += [(shard_field_history, (ctx.shard_seed(200 + i), ctx.n(6, 120))) for i in range(4)]
     ctx.pmap(_dispatch, tasks)
     ctx.acc.exhaustive = True
     ctx.acc.extra['exhaustive_parts'] = 'widths 1..%d primitives; expand-imm; imm-shift; field cells of fields<=8 bits' % nmax
@@ -458,6 +545,49 @@ def replay(case, bucket=None):
             _call(acc, name, args, FN[name], want)
         else:
             chk(acc, name, args)
+    elif case.get('kind') == 'field-history':
+        # replay the logged operations on a fresh register object and compare every named field with the bits of the modelled value
+        import importlib
+        target.load_config()
+        cls = getattr(importlib.import_module('armulator.armv6.all_registers.' + case['modname']), case['cls'])
+        flds = [(fn, bp) for (mn, cn, ct), fl in FIELDS.items() if cn == case['cls'] and mn == case['modname'] for fn, bp in fl]
+        reg = cls(*case.get('ctor', []))
+        model = reg.value
+        out = []
+        for op in case['log']:
+            if op[0] == 'value=':
+                model = op[1]
+                reg.value = model
+            elif op[0] == 'slice':
+                reg[op[1]:op[2]] = op[3]
+                model = (model & ~((2 ** (op[1] - op[2] + 1) - 1) << op[2])) | (op[3] << op[2])
+            elif op[0] == 'set':
+                for fn, bp in flds:
+                    if str(fn) == op[1]:
+                        if isinstance(fn, tuple):
+                            getattr(reg, fn[1])(fn[2], op[2])
+                        else:
+                            setattr(reg, fn, op[2])
+                        width = sum(m - l + 1 for m, l in bp)
+                        rem = width
+                        for m, l in bp:
+                            w_ = m - l + 1
+                            rem -= w_
+                            model = (model & ~((2 ** w_ - 1) << l)) | (((op[2] >> rem) & (2 ** w_ - 1)) << l)
+                        break
+            if reg.value != model:
+                out.append('value')
+                break
+            for fn, bp in flds:
+                g = int(getattr(reg, fn[0])(fn[2]) if isinstance(fn, tuple) else getattr(reg, fn))
+                w = 0
+                for m, l in bp:
+                    w = (w << (m - l + 1)) | ((model >> l) & (2 ** (m - l + 1) - 1))
+                if g != w:
+                    out.append(str(fn))
+            if out:
+                break
+        return out
     else:
         a = shard_fields(1)
         acc.viol = {b: v for b, v in a.viol.items() if bucket is None or b == bucket}
